@@ -64,10 +64,35 @@ func c19Proposal(rng *rand.Rand, kind, i int) CoordinationProposal {
 func TestVerif_C19_Tbtc(t *testing.T) {
 	r := verifkit.Start(t, "C19", "tbtc")
 	defer r.Finish()
+	if decs := c19TbtcDecoders(r); decs != nil {
+		c19Run(r, "tbtc", decs)
+	}
+}
+
+// TestVerif_C19_TbtcRace decodes coordination messages (every proposal kind),
+// deposit sweep proposals and signing-done messages from four goroutines.
+func TestVerif_C19_TbtcRace(t *testing.T) {
+	r := verifkit.Start(t, "C19", "tbtc-race")
+	defer r.Finish()
+	decs := c19TbtcDecoders(r)
+	if decs == nil {
+		return
+	}
+	var sel []c19Decoder
+	for _, d := range decs {
+		switch d.Type {
+		case "coordinationMessage", "DepositSweepProposal", "signingDoneMessage", "HeartbeatProposal":
+			sel = append(sel, d)
+		}
+	}
+	c19RaceRun(r, "tbtc", sel)
+}
+
+func c19TbtcDecoders(r *verifkit.Run) []c19Decoder {
 	shares, err := tecdsatest.LoadPrivateKeyShareTestFixtures(5)
 	if err != nil {
 		r.Inconclusive("cannot load key share fixtures: " + err.Error())
-		return
+		return nil
 	}
 	const f = "marshaling.go"
 	proposal := func(kind int, typ string, skip []string) c19Decoder {
@@ -136,6 +161,7 @@ func TestVerif_C19_Tbtc(t *testing.T) {
 				return m
 			},
 			IndexPaths: []string{"1"},
+			Variants:   6, // Gen cycles through the six proposal kinds
 			// uint32 proposal.actionType (4.1) is narrowed to uint8
 			Ranges: []c19Range{{Path: "4.1", Min: 0, Max: 255}},
 		},
@@ -155,5 +181,5 @@ func TestVerif_C19_Tbtc(t *testing.T) {
 	decs[6].New = func() c19Codec { return &RedemptionProposal{} }
 	decs[7].New = func() c19Codec { return &MovingFundsProposal{} }
 	decs[8].New = func() c19Codec { return &MovedFundsSweepProposal{} }
-	c19Run(r, "tbtc", decs)
+	return decs
 }
